@@ -27,6 +27,8 @@ Theorem C15_rest_intact :
     f_id f' = f_id f /\ f_name f' = f_name f /\ f_tags f' = f_tags f /\ f_bg f' = f_bg f.
 Proof. exact rest_intact. Qed.
 
+(* [definitional] unfolds the model's own definition: a pinned reading of the model (it breaks when the model is edited),
+   not evidence for the property by itself — the model is tied to the code by the correspondence check *)
 Theorem C15_name_wins :
   forall re_match user tags f r s, accept re_match user true tags f r s = re_match (s_name s).
 Proof. exact accept_name. Qed.
@@ -37,6 +39,8 @@ Theorem C15_tags_then :
     tag_interp t (fun x => In x (f_tags f) \/ In x (rule_tags r) \/ In x (s_tags s)).
 Proof. exact accept_tags. Qed.
 
+(* [definitional] unfolds the model's own definition: a pinned reading of the model (it breaks when the model is edited),
+   not evidence for the property by itself — the model is tied to the code by the correspondence check *)
 Theorem C15_closure_last :
   forall re_match user f r s, accept re_match user false None f r s = user f r s.
 Proof. exact accept_closure. Qed.
